@@ -528,12 +528,16 @@ fn state_key(case: &Case, proj: &Value) -> String {
     parts.join("|")
 }
 
-/// exploration bound (only the near-u64::MAX limits need it: small amounts pile up for ever)
+/// exploration bound: a state is not expanded when a bucket holds more than the case's `cap`
+/// (for a near-u64::MAX limit: a small value above cap - small amounts would pile up for ever;
+/// for a small limit: any value above cap, which only a broken implementation produces)
 fn within_cap(case: &Case, proj: &Value) -> bool {
-    for name in ["pay", "fee", "dpay", "dfee"] {
+    for (name, p) in [("pay", &case.pay), ("fee", &case.fee), ("dpay", &case.pay), ("dfee", &case.fee)] {
+        let top_limit = p.l > TOP / 2;
         for v in proj[name]["b"].as_array().unwrap() {
             let v = v.as_i64().unwrap();
-            if v > case.cap as i64 && v < (TOP / 2) as i64 {
+            let is_top = v >= (TOP / 2) as i64;
+            if v > case.cap as i64 && !(top_limit && is_top) {
                 return false;
             }
         }
@@ -599,7 +603,7 @@ fn explore() {
     let cases = load_cases(&arg("cases").unwrap());
     let out = arg("out").unwrap();
     let threads = arg_u64("threads", 8) as usize;
-    let max_states = arg_u64("max-states", 200_000) as usize;
+    let max_states = arg_u64("max-states", 20_000) as usize;
     let n = cases.len();
     let cases = Arc::new(cases);
     let next = Arc::new(std::sync::Mutex::new(0usize));
